@@ -1,10 +1,23 @@
 mod util;
+mod pan;
+mod corpus;
+mod gen;
+mod worker;
+mod jobs;
+
+#[global_allocator]
+static GLOBAL: worker::CapAlloc = worker::CapAlloc;
+mod c02;
 mod c16;
 mod c17;
 mod rend;
 
 fn main() {
     let args: Vec<String> = std::env::args().collect();
+    if args.len() >= 2 && args[1] == "worker" {
+        worker::child_main();
+        return;
+    }
     if args.len() < 3 {
         eprintln!("usage: vh corr|search <Cxx> [tier]");
         std::process::exit(2);
@@ -19,6 +32,15 @@ fn main() {
         ("corr", "C17") => {
             let mut c = util::Corr::new();
             c17::corr(&tier, seed, &mut c);
+        }
+        ("corr", "C02") => {
+            let mut c = util::Corr::new();
+            c02::corr(&tier, seed, &mut c);
+        }
+        ("search", "C02") => {
+            let mut s = util::Search::new();
+            c02::search(&tier, seed, &mut s);
+            s.finish();
         }
         ("search", "C17") => {
             let mut s = util::Search::new();
